@@ -1,6 +1,6 @@
 (* C01: sender completion implies complete delivery (acknowledgements are only given to delivered frames). *)
 From Coq Require Import ZArith List Bool Lia ZifyBool Permutation.
-From AQ Require Import lib.Base model.RangeSet model.StreamRecv model.StreamSpec model.StreamSend model.NetSys
+From AQ Require Import lib.Base model.RangeSet model.StreamRecv model.StreamSpec model.StreamSend model.NetSys model.NetSysLive
   proofs.RangeSetP proofs.ListZ proofs.StreamRecvP proofs.StreamSendP proofs.NetSysP proofs.NetSysP2.
 
 Definition recvd (r : recv) (o : Z) : Prop := o < r_start r \/ mem o (r_ranges r).
